@@ -25,6 +25,10 @@ def bindings(rnd, n):
         (("#999999", "#ffffff", False), ("#808080", "#808080", True)),
         (("#888888", "#ffffff", False), ("#bbbbbb", "#ffffff", True)),
         (("hsl(0, 0%, 50%)", "rgb(120, 120, 120)", False), ("#aaaaaa", "#ffffff", False)),
+        # spellings that compare equal but denote different colours (1 == 1.0 == True)
+        (("#333333", (1.0, 1.0, 1.0), False), ("#010101", "#ffffff", False)),
+        (((1, 1, 1), (1.0, 1.0, 1.0), False), ((1.0, 1.0, 1.0), (0, 0, 0), True)),
+        (((True, True, True), "#ffffff", False), ((0.0, 0.0, 1.0), (0, 0, 1), False)),
     ]
     out += fixed
     while len(out) < n:
@@ -174,7 +178,7 @@ def main():
     rep.add_model("ApiHist(Depth=3,NP=2) history generator", r, "abstract histories replayed into the implementation")
     hists = [h for h in hists if len(h) >= 2 and any(o[0] in ("fix", "bulk") for o in h[1:])]
     rep.extra["histories_enumerated_by_tlc"] = len(hists)
-    nb = 8 if t == "quick" else 40
+    nb = 11 if t == "quick" else 40
     binds = bindings(rnd, nb)
     nh = 420 if t == "quick" else 9000
     jobs = []
